@@ -258,7 +258,7 @@ func genRdCases(c *Ctx) []json.RawMessage {
 	streams := []int{0, 5, 4096, 4100, 10000}
 	policies := [][]int{{-1}, {4096}, {1000}, {0, -1}}
 	seed := 1
-	stride := c.Pick(9, 7) // quick: 1/6 of the length-2 product; thorough: 1/7 of the length-3 product
+	stride := c.Pick(4, 5) // quick: 1/6 of the length-2 product; thorough: 1/7 of the length-3 product
 	for _, S := range streams {
 		for _, fk := range []string{"EOF", "ERR"} {
 			for _, wd := range []bool{false, true} {
@@ -296,7 +296,7 @@ func genRdCases(c *Ctx) []json.RawMessage {
 					for i := range small {
 						for j := range small {
 							seed++
-							if !c.Thorough() && seed%4 != 0 {
+							if !c.Thorough() && seed%2 != 0 {
 								continue
 							}
 							add(RdCase{Fl: "io", S: S, Fk: fk, Wd: wd, Seed: seed % 251, Chunks: pol, Ops: []RdOp{small[i], small[j], {"next", 1}}})
@@ -308,7 +308,7 @@ func genRdCases(c *Ctx) []json.RawMessage {
 	}
 	// seeded random histories
 	rng := rand.New(rand.NewSource(c.Seed*7919 + 4))
-	nrand := c.Pick(700, 20000)
+	nrand := c.Pick(1500, 20000)
 	for k := 0; k < nrand; k++ {
 		cs := RdCase{Fl: "io", Fk: "EOF", Seed: rng.Intn(251)}
 		if rng.Intn(4) == 0 {
